@@ -15,6 +15,15 @@ PROPS = {
                          "regex crate (only literal patterns are compared)", "extern functions are not modelled"],
         "assumptions": ["a panic in Expression::evaluate is observed through the stream (catch_unwind), not modelled", "regex: only patterns made of [A-Za-z0-9_/ ] are compared (substring semantics)"],
     },
+    "C05": {
+        "module": "BiscuitModel.Props.C05",
+        "streams": ["engine"],
+        "level_text": "Lean 4 theorems about an executable model of datalog::World: the fixpoint loop is sound and complete with respect to an inductive derivability relation (run_sound, run_complete, run_exact), insertion-order independent (run_order_independent), provenance is exactly the union of used origins plus the rule's block (applyRule_origin, combine_origin), a rule with an unbound head variable never produces a fact (unbound_head_no_facts). No bound on rules, facts, terms, origins or iterations. The model is tied to the code by running datalog::World (public API: add_fact/add_rule/run_with_limits/query_*) and the compiled model on the same generated programs with arbitrary origin and trust sets and comparing the complete (origin, fact) sets, iteration counts and query answers.",
+        "level_note": "Trusted: Lean kernel (standard axioms only), harness/driver JSON glue, generator reach. Derivability is defined through one application of a rule to an arbitrary finite set of derivable pairs (applyRule), whose own behaviour is tied to Rule::apply by the stream. Expression errors and limits are separate outcomes: exactness is stated for runs that end with Ok.",
+        "rule": "engine stream: seeded programs over 7 typed predicates (arity 0-3, constants of every term type), facts with origin sets drawn from {0,1,2,3,authorizer}, rules with arbitrary trusted sets, shared variables, expressions, recursive closure rules over chains, plus limit triples at k-1/k/k+1 of the measured need; non-trivial = implementation and model both finished Ok after at least one productive iteration; distinct = distinct case JSON",
+        "trusted_base": ["harness/src/s_engine.rs generator and canonicalisation (facts sorted as JSON)", "lean/Codec.lean, lean/Driver.lean JSON glue"],
+        "assumptions": ["which of several expression errors is reported is order-dependent in the code; only the error class is compared", "wall-clock limit not exercised in this stream (max_time = 1h)"],
+    },
 }
 
 
@@ -31,12 +40,55 @@ def cmp_default(case, impl, model):
     return None
 
 
-COMPARATORS = {"expr": cmp_default}
+def _canon_facts(fs):
+    return sorted(json.dumps(f, sort_keys=True) for f in fs)
+
+
+def _q_match(im, mo):
+    """one query outcome; the model may give a set of order-dependent outcomes"""
+    alts = mo["any"] if "any" in mo else [mo]
+    for a in alts:
+        if "facts" in a or "facts" in im:
+            if "facts" in a and "facts" in im and _canon_facts(a["facts"]) == _canon_facts(im["facts"]):
+                return True
+        elif "err" in a or "err" in im:
+            if a.get("err") == im.get("err"):
+                return True
+        elif a.get("b") == im.get("b"):
+            return True
+    return False
+
+
+def cmp_engine(case, impl, model):
+    if "driver_error" in model:
+        return "driver error: %s" % model["driver_error"]
+    if "panic" in impl:
+        return "implementation panicked: %s" % impl["panic"]
+    if model.get("r") == "MODEL-OUT-OF-FUEL":
+        return "skip"
+    if impl.get("r") != model.get("r"):
+        return "run result differs: impl %s model %s" % (impl.get("r"), model.get("r"))
+    if impl.get("iterations") != model.get("iterations"):
+        return "iteration count differs: impl %s model %s" % (impl.get("iterations"), model.get("iterations"))
+    a, b = _canon_facts(impl["facts"]), _canon_facts(model["facts"])
+    if a != b:
+        extra = [x for x in a if x not in b]
+        missing = [x for x in b if x not in a]
+        return "fact sets differ: impl-only %s model-only %s" % (extra[:3], missing[:3])
+    for i, (qi, qm) in enumerate(zip(impl.get("queries", []), model.get("queries", []))):
+        if not _q_match(qi, qm):
+            return "query %d differs" % i
+    return None
+
+
+COMPARATORS = {"expr": cmp_default, "engine": cmp_engine}
 
 
 def nontrivial(stream, case, impl):
     if stream == "expr":
         return impl.get("err") != "InvalidStack"
+    if stream == "engine":
+        return impl.get("r") == "ok" and impl.get("iterations", 0) >= 1
     return True
 
 
